@@ -277,6 +277,7 @@ type countingSvc struct{ service.IInsertServiceV2 }
 
 func (c countingSvc) Request(req helpers.SizeGetter, insertMode int) *promise.Promise[uint32] {
 	atomic.AddInt64(&svcRequests, 1)
+	hoGate.park(req) // hand-over oracle (handover.go): a no-op unless the gate is collecting
 	return c.IInsertServiceV2.Request(req, insertMode)
 }
 
@@ -452,6 +453,9 @@ type Result struct {
 	AHeld       bool           `json:"a_held,omitempty"`    // A's first INSERT block really was held when the input was sent
 	AAltered    []string       `json:"a_altered,omitempty"` // INSERT statements whose finally accepted block for A differs from the one A yields alone
 	ACompared   int            `json:"a_compared,omitempty"`
+	HOHeld      int            `json:"ho_held,omitempty"`     // hand-over phase: requests of the other client's push parked between parser and insert service while the input was served
+	HOAltered   []string       `json:"ho_altered,omitempty"`  // ... fields of those requests whose content changed before the insert service consumed them
+	HOAStatus   int            `json:"ho_a_status,omitempty"` // ... answer to that push after its requests were let go (healthy database)
 	Shared      bool           `json:"shared_batch,omitempty"` // ... and both went to the fake in the same block(s)
 	Blocks      map[string]int `json:"blocks,omitempty"`
 	MicroS      int64          `json:"us"`
@@ -786,6 +790,34 @@ func (w *workerEnv) runInterleaved(in *Input) Result {
 	}
 	if q != "" {
 		path += "?" + q
+	}
+	// hand-over phase (healthy database): the other client's push A0 is parsed, every request its parser hands to an
+	// insert service is parked before the service consumes it; the input is served completely; the parked requests must
+	// still have the content they were handed over with; A0 is then let go and must be acknowledged.
+	{
+		hoGate.arm()
+		a0 := make(chan serveOut, 1)
+		go func() { a0 <- w.serve(in.ID, rs.Method, path, hs, seedBody(fam, ilvMarker), base) }()
+		last, same := 0, 0
+		for i := 0; i < 10000 && same < 25; i++ { // parked calls > 0 and unchanged for 25 polls: A0's parser is through
+			time.Sleep(200 * time.Microsecond)
+			if n := hoGate.count(); n > 0 && n == last {
+				same++
+			} else {
+				last, same = n, 0
+			}
+			if len(a0) > 0 {
+				break
+			}
+		}
+		res.HOHeld = hoGate.stop()
+		if res.HOHeld > 0 {
+			w.serve(in.ID, in.Method, in.Path, in.Headers, in.Body, base)
+			res.HOAltered = hoGate.recheck()
+		}
+		hoGate.releaseAll()
+		res.HOAStatus = (<-a0).status
+		settle(base) // rows the input left in a batch are flushed before the retry phase starts
 	}
 	w.ing.fake.takeIssues()
 	w.ing.fake.takeDoLog()
